@@ -249,7 +249,11 @@ func OptionsArg(m rm.Mapping) (*data.Mapping, error) {
 }
 
 func BuildRouterAddress(a rm.RouterAddress) (*router_address.RouterAddress, error) {
-	return router_address.NewRouterAddress(a.Cost, time.Time{}, string(a.Style), MappingToGo(a.Options))
+	opts := MappingToGo(a.Options)
+	if len(opts) == 0 && a.Cost%2 == 1 {
+		opts = nil // "no options" as a caller may also say it (chosen by the cost byte, so a case replays identically)
+	}
+	return router_address.NewRouterAddress(a.Cost, time.Time{}, string(a.Style), opts)
 }
 
 func BuildLease(l rm.Lease) (*lease.Lease, error) {
